@@ -195,6 +195,11 @@ func init() {
 			st.assume(Eq(ref, x.freshRef(st)))
 			gh := x.heapGet(st, "GH_hashed", "(Array Int String)")
 			st.heap["GH_hashed"] = Store(gh, ref, StrLit(""))
+			// ... of the algorithm it was created for (spec builtin hashAlg(h))
+			if a[0].T.Sort == "String" {
+				ga := x.heapGet(st, "GH_hashalg", "(Array Int String)")
+				st.heap["GH_hashalg"] = Store(ga, ref, a[0].T)
+			}
 		}
 		x.funcsUsed["lib:go-digest Algorithm.Hash returns a non-nil hash for a registered algorithm (panics otherwise: callers must pass validated digests)"] = true
 		return h, true
@@ -217,8 +222,14 @@ func init() {
 		}
 		ref := Term{fmt.Sprintf("(ival %s)", a[1].T.S), "Int"}
 		gh := x.heapGet(st, "GH_hashed", "(Array Int String)")
-		x.funcsUsed["lib:go-digest NewDigest(alg, h) is digestOf(alg, bytes written to h), the same function FromBytes computes for sha256"] = true
-		return x.digestOf(st, a[0].T, Select(gh, ref), cc.Signature().Results().At(0).Type()), true
+		x.funcsUsed["lib:go-digest NewDigest(alg, h) is digestOf(alg, bytes written to h) when h is a hash of algorithm alg (else an unspecified string), the same function FromBytes computes for sha256"] = true
+		T := cc.Signature().Results().At(0).Type()
+		dg := x.digestOf(st, a[0].T, Select(gh, ref), T)
+		if a[0].T.Sort == "String" {
+			ga := x.heapGet(st, "GH_hashalg", "(Array Int String)")
+			dg.T = Ite(Eq(Select(ga, ref), a[0].T), dg.T, x.d.Fresh("dg_wrongalg", "String"))
+		}
+		return dg, true
 	}
 	// base64 decoding: an unspecified function of the encoding used and the text
 	libTable["(*encoding/base64.Encoding).DecodeString"] = func(x *Exec, fr *Frame, st *State, cc *ssa.CallCommon, a []Val) (Val, bool) {
